@@ -88,8 +88,8 @@ fn gen_decimal_str(t: &mut Tape) -> (String, &'static str) {
     }
 }
 
-const IP_BOUNDARY: [&str; 34] = [
-    "0.0.0.0/0", "255.255.255.255/32", "1.2.3.4/33", "1.2.3.4/032", "1.2.3.4/00", "1.2.3.4/0", "1.2.3.4/", "01.2.3.4", "1.2.3.256", "1.2.3", "1.2.3.4.5", "::", "::/0", "::/128", "::/129", "::1/0128", "::ffff:1.2.3.4", "::1.2.3.4",
+const IP_BOUNDARY: [&str; 37] = [
+    "::ffff:a00:1", "0::FFFF:0:0/0", "::a00:1/120", "0.0.0.0/0", "255.255.255.255/32", "1.2.3.4/33", "1.2.3.4/032", "1.2.3.4/00", "1.2.3.4/0", "1.2.3.4/", "01.2.3.4", "1.2.3.256", "1.2.3", "1.2.3.4.5", "::", "::/0", "::/128", "::/129", "::1/0128", "::ffff:1.2.3.4", "::1.2.3.4",
     "1:2:3:4:5:6:7:8", "1:2:3:4:5:6:7::", "::2:3:4:5:6:7:8", "1:2:3:4:5:6:7:8::", "1::8", "1:::8", "12345::", "g::", "ABCD:EF01:2345:6789:ABCD:EF01:2345:6789/128", "ABCD:EF01:2345:6789:ABCD:EF01:2345:6789/0128", "fe80::1%eth0",
     "127.0.0.1", "127.0.0.0/8", "127.0.0.0/7", "224.0.0.0/4", "ff00::/8",
 ];
